@@ -6,7 +6,9 @@ CONSTANTS
   Miuxs = {0}
   Rws = {1}
   Sym = {0}
-  Alpha = {0, 1, 2, 5, 6, 8, 65, 255}
+  MemSapCodes = {0}
+  FrmrSapCodes = {0}
+  Alpha = {0, 1, 2, 5, 6, 255}
 INVARIANT ReEncode
 INVARIANT TopSame
 INVARIANT LooseWeaker
